@@ -24,6 +24,33 @@ CLAIMS = {
   note=TB + "numpy/torch/jax indexing, concatenate and pickle are modelled (gather by index list), not verified; selectors are normalised to "
        "index lists by the harness.",
   technique="Lean 4 proof (refinement to list-of-rows spec) + differential op-sequence correspondence + plain-array oracle"),
+ "C05": dict(
+  text="Theorems: the SMC kernel target of the model is (1-b) log q + b (log L + log pi) + log|J| and the MCMC target log L + log pi + log|J| (over the reals); "
+       "over a four-kind extended value type (finite, -inf, +inf, nan with IEEE tables) a zero-prior point gives exactly -inf for every b in (0,1] and every "
+       "value of the other terms, and the SMC target is never nan. The model runs at Float against log_prob of all five sampler classes in three namespaces.",
+  note=TB + "The transform's own inverse/log-Jacobian are taken from the implementation (their exactness is C04); IEEE special-value tables of numpy/torch/jax "
+       "are modelled by the XR type; BlackJAXSMC is exercised through log_prob only (blackjax is not installed).",
+  technique="Lean 4 proof (real + extended-value case analysis) + differential correspondence on log_prob + formula oracle"),
+ "C06": dict(
+  text="Theorems for every population (every efficiency function), every tolerance, floor and cap: the adaptive step never raises, strictly increases, stays in (0,1], "
+       "advances by at least tol/2 and by the floor, so a run reaches exactly 1 within ceil(2/tol) iterations or stops at the cap; the fixed rule visits k/n and takes "
+       "exactly n iterations; the loop model of Model/Smc.lean carries these (runLoop_adaptive, runLoop_fixed). Float facts (pinned accumulation needs n+1 steps for "
+       "n=7,10; the new rule is exact) by kernel evaluation. The pinned defects (ZeroDivisionError, stall at beta=0) are proved of the pinned model and were repaired by fix: commits.",
+  note=TB + "Real-number theorems; IEEE rounding enters only through the kernel-evaluated Float facts (decide +kernel, no extra axioms) and through the correspondence. "
+       "MCMC kernels are test doubles. beta_tolerance below 1 ulp is outside the option space (not exposed by the public samplers).",
+  technique="Lean 4 proof (order/arith induction over the schedule) + differential correspondence on determine_beta and whole runs + oracle"),
+ "C07": dict(
+  text="Theorems: the ESS fraction of the incremental weights is antitone in the trial temperature for every population (log-sum-exp convexity via Hoelder); the bisection "
+       "returns a feasible point within tol of the supremum of the feasible set; the full step is taken iff it meets the target in force (ramp = lo+(hi-lo) beta^rate); the returned "
+       "temperature differs from the bisection result only by the minimum-step floor (adaptive_step_spec).",
+  note=TB + "Real-number theorems about the model of determine_beta/effective_sample_size/log_weights; rounding only through the correspondence (knife-edge decisions are counted and skipped).",
+  technique="Lean 4 proof (Mathlib analysis: convexity of log-sum-exp) + differential correspondence on determine_beta + ESS oracle at beta* and beta*+2tol"),
+ "C09": dict(
+  text="Theorems: the probability vector handed to the generator equals w_i / sum w with w_i = exp((b'-b)(log L+log pi-log q)_i) for every population and temperature pair "
+       "(the added evidence ratio and the double normalisation cancel), is positive, sums to one and is invariant under constant shifts; every field of output row j is the "
+       "field of source row idx[j] (refinement via C16), with the new temperature and the requested size. The captured p vector and indices of the real resample are compared.",
+  note=TB + "numpy Generator.choice is trusted to draw index i with the probability it is handed; fancy indexing is modelled as gather.",
+  technique="Lean 4 proof + differential correspondence on captured probability vectors + row-copy oracle"),
 }
 NOT_YET = "check not built yet (work in progress; see DESIGN.md section 10)"
 
